@@ -21,6 +21,8 @@ pub struct Config {
     pub rop: bool,
     pub rderef: bool,
     /// R-state: calls of these methods / paths get `state_arg` appended as last argument
+    /// R-match on `o.map(|p| body)` (opt-in: only where the receiver is an Option)
+    pub rmatch_map: bool,
     pub state_methods: Vec<String>,
     pub state_calls: Vec<String>,
     pub state_arg: String,
@@ -48,6 +50,7 @@ impl Config {
             rmatch: v["rmatch"].as_bool().unwrap_or(true),
             rop: v["rop"].as_bool().unwrap_or(true),
             rderef: v["rderef"].as_bool().unwrap_or(true),
+            rmatch_map: v["rmatch_map"].as_bool().unwrap_or(false),
             state_methods: strs(&v["state_methods"]),
             state_calls: strs(&v["state_calls"]).iter().map(|s| norm(s)).collect(),
             state_arg: v["state_arg"].as_str().unwrap_or("").to_string(),
@@ -515,6 +518,13 @@ impl<'a, 'ast> Visit<'ast> for Rewriter<'a> {
     fn visit_expr_closure(&mut self, c: &'ast ExprClosure) {
         self.scopes.push(HashMap::new());
         for p in &c.inputs {
+            // an untyped closure parameter keeps a kind declared for that name by the unit file
+            if let Pat::Ident(pi) = p {
+                if let Some(k) = self.lookup(&pi.ident.to_string()) {
+                    self.declare(&pi.ident.to_string(), k);
+                    continue;
+                }
+            }
             self.bind_pat(p, false, None, None);
         }
         self.visit_expr(&c.body);
@@ -705,6 +715,67 @@ impl<'a, 'ast> Visit<'ast> for Rewriter<'a> {
                     self.sf.line_of(self.r(m.span()).0),
                     name
                 ));
+            }
+        }
+        if self.cfg.rmatch && name == "cloned" && m.args.is_empty() {
+            // R-optmin: `a.iter().chain(b.iter()).min().cloned()` on two Options == the smaller of
+            // the present values (Option::iter yields zero or one item)
+            if let Expr::MethodCall(mn) = &*m.receiver {
+                if mn.method == "min" && mn.args.is_empty() {
+                    if let Expr::MethodCall(ch) = &*mn.receiver {
+                        if ch.method == "chain" && ch.args.len() == 1 {
+                            if let (Expr::MethodCall(ia), Expr::MethodCall(ib)) = (&*ch.receiver, &ch.args[0]) {
+                                if ia.method == "iter" && ib.method == "iter" && ia.args.is_empty() && ib.args.is_empty() {
+                                    self.visit_expr(&ia.receiver);
+                                    self.visit_expr(&ib.receiver);
+                                    let ra = self.r(ia.receiver.span());
+                                    let rb = self.r(ib.receiver.span());
+                                    let whole = self.r(m.span());
+                                    self.edits.replace(
+                                        whole,
+                                        vec![
+                                            Piece::Lit("vx_opt_min(".into()),
+                                            Piece::Src(ra.0, ra.1),
+                                            Piece::Lit(", ".into()),
+                                            Piece::Src(rb.0, rb.1),
+                                            Piece::Lit(")".into()),
+                                        ],
+                                        "R-optmin",
+                                    );
+                                    self.note("R-optmin", m.span());
+                                    return;
+                                }
+                            }
+                        }
+                    }
+                }
+            }
+        }
+        if self.cfg.rmatch && self.cfg.rmatch_map && name == "map" && m.args.len() == 1 {
+            if let Expr::Closure(c) = &m.args[0] {
+                if c.inputs.len() == 1 && !has_escape(&c.body) {
+                    self.visit_expr(&m.receiver);
+                    self.visit_expr(&m.args[0]);
+                    let rr = self.r(m.receiver.span());
+                    let pr = self.r(c.inputs[0].span());
+                    let br = self.r(c.body.span());
+                    let whole = self.r(m.span());
+                    self.edits.replace(
+                        whole,
+                        vec![
+                            Piece::Lit("(match ".into()),
+                            Piece::Src(rr.0, rr.1),
+                            Piece::Lit(" { None => None, Some(".into()),
+                            Piece::Src(pr.0, pr.1),
+                            Piece::Lit(") => Some(".into()),
+                            Piece::Src(br.0, br.1),
+                            Piece::Lit(") })".into()),
+                        ],
+                        "R-match",
+                    );
+                    self.note("R-match", m.span());
+                    return;
+                }
             }
         }
         if self.cfg.rmatch && name == "and_then" && m.args.len() == 1 {
